@@ -419,7 +419,7 @@ pub fn parse(cx: &mut Raw) {
     // multi-byte characters and newlines inside and around tokens
     for src in ["\"é\"+\n  'ab𝄞' ", "a\n+\n\tb", "  x  ", "[1,\n 2 ,\"𝄞𝄞\"\n]", "{\"k\":\n1}.k", "f(\n)", "a ? b\n: c", "match x { case int: 1,\n case _: 2 }", "match x {}", "'é' in ['é']", "b\"\\xff\" + b'a'", "r'a\\n'", "1.5e3 + .5", "0x1F + 7u", "a.b.c(d)[e].f", "!-a", "-!a", "- - a", "!!!a", "a ? b : c ? d : e", "a ? b ? c : d : e", "(a ? b : c) ? d : e", "a in b in c", "a < b == c", "[a,]", "{a:b,}", "f(a,)", "x.in", "x.y.match", "1 +", "", " ", ")", "a b", "a ? b", "a ? : c", "match", "match x {case}", "\"abc", "'\\q'", "0x", "1e", "1.5.2", "a..b", "a.[b]", "f(,)", "[,]", "{,}", "{a}", "{a:}", "a ?? b", "a = b", "a | b", "a & b", "a ! b", "$", "é", "a\r\nb",
         // errors inside an embedded expression of an f-string, on lines shorter than the embedded text
-        "f'{ 1 2 }'", "f'{ a b }'", "f'x{ a ) }'", "f'{ a ? b }'", "f'{ a ? b : c }{ match x { case _: 1 } }'", " \n f'{ 1 + }'", "a +\n f'x{ b & }'", " \n(\n f'{ (1 }' )", "\n\nf'{ a b }{ ) }'", "f'{ }'", " \n[ f'{ 1 + 2 }', f'{ \"a\" & }' ]"] {
+        "'prefix: ' + f'{a +\n}'", "f'{\n1 +\n}'", "   x + f'{ (a\n }'", "f'{ 1 2 }'", "f'{ a b }'", "f'x{ a ) }'", "f'{ a ? b }'", "f'{ a ? b : c }{ match x { case _: 1 } }'", " \n f'{ 1 + }'", "a +\n f'x{ b & }'", " \n(\n f'{ (1 }' )", "\n\nf'{ a b }{ ) }'", "f'{ }'", " \n[ f'{ 1 + 2 }', f'{ \"a\" & }' ]"] {
         parse_record(cx, src, None, None, 3);
     }
 }
@@ -642,7 +642,7 @@ pub fn literals(cx: &mut Raw) {
             lit_record(cx, &format!("{}{}{}", pre, q, b), false, None);
         }
     }
-    for s in ["'", "\"", "'abc", "\"abc'", "b'", "r'", "f'", "f'}'", "f'a}b'", "f'{{'", "f'}}'", "f'{{}}'", "true", "false", "null", "''", "\"\"", "b''", "'\\u0041'", "'\\U0001F600'", "'\\101'", "b'\\101'", "b'\\377'", "b'\\xff'", "'\\xff'", "'\\X41'", "b\"é\""] {
+    for s in ["'", "\"", "'abc", "\"abc'", "b'", "r'", "f'", "f'}'", "f'a}b'", "f'{{'", "f'}}'", "f'{{}}'", "true", "false", "null", "''", "\"\"", "b''", "'\\x+4'", "'\\u+041'", "b'\\x+f'", "'\\x-1'", "'\\x 1'", "'\\U+0000041'", "'\\u0041'", "'\\U0001F600'", "'\\101'", "b'\\101'", "b'\\377'", "b'\\xff'", "'\\xff'", "'\\X41'", "b\"é\""] {
         lit_record(cx, s, false, None);
     }
 }
